@@ -92,6 +92,24 @@ pub fn matrix(rng: &mut Rng, class: &str, n: usize) -> Vec<f64> {
             let pts: Vec<Vec<f64>> = (0..n).map(|_| (0..dim).map(|_| rng.below(span + 1) as f64).collect()).collect();
             euclid(&pts)
         }
+        "ratioblobs" => {
+            // tight groups far apart: within-group entries ~1e-150, between-group entries ~1e150 (all distinct,
+            // clearly separated; squares 1e-300 / 1e300 are still normal).  `to_bits` maps them to 1e-6 / 1e17
+            // for f32.  An extreme magnitude RATIO inside one matrix: anything that rescales by the largest
+            // entry, or mixes magnitudes in one sum, loses the small entries.
+            let g = rng.range(2, 4).min(n.max(1));
+            let grp: Vec<usize> = (0..n).map(|i| i % g).collect();
+            let mut v = Vec::with_capacity(len);
+            let mut c = 0u64;
+            for i in 0..n {
+                for j in i + 1..n {
+                    c += 1;
+                    let jitter = 1.0 + (c as f64) * 0.9 / (len as f64 + 1.0) + rng.unit() * 0.001;
+                    v.push(if grp[i] == grp[j] { jitter * 1e-150 } else { jitter * 1e150 });
+                }
+            }
+            v
+        }
         "euclid" => {
             let dim = rng.range(1, 3);
             let pts: Vec<Vec<f64>> = (0..n).map(|_| (0..dim).map(|_| rng.unit() * 10.0).collect()).collect();
@@ -263,6 +281,9 @@ pub fn to_bits(class: &str, w32: bool, vals: &[f64]) -> Vec<u64> {
         let target = if m > 1.0 { 1e15 } else { 1e-15 };
         let f = if m > 0.0 { target / m } else { 1.0 };
         return vals.iter().map(|&x| f64_to_bits(true, x * f)).collect();
+    }
+    if w32 && class == "ratioblobs" {
+        return vals.iter().map(|&x| f64_to_bits(true, if x < 1.0 { x * 1e144 } else { x * 1e-133 })).collect();
     }
     if w32 && class == "geomline" {
         // keep squares finite in f32: rescale so that the largest distance is <= 1e15
